@@ -18,7 +18,9 @@ MANIFEST = {
     "engine": "gridx",
     "technique": "complete enumeration of a designed finite grid of cells x cutoffs x atom counts x position designs "
                  "x query/haystack subsets, every result compared with a float64 brute-force minimum-image oracle",
-    "text": "Every member of: cell menu (quick 7 cells + 5 unreduced forms, thorough 14 + 10) and no cell x cutoff in "
+    "text": "Every member of: cell menu of vlib.grids incl. unreduced forms (quick + the tric_45_60_75 pair; the menu contains a "
+            "cell for each single non-zero off-diagonal box entry: gamma-only hex60 (b_x), beta-only mono110 (c_x), alpha-only "
+            "mono_a75 (c_y) - the covered patterns are measured into the evidence) and no cell x cutoff in "
             "{0.05, 0.25, 0.5} x smallest cell width x n in {1,2,3,8,64} x position designs {4x4x4 fractional lattice + "
             "low-discrepancy jitter as generated / wrapped into the brick cell / every atom in a different image of "
             "{-2..2}^3; points exactly on and +-1e-4 around multiples of the voxel edge neighborlist.cpp derives for "
@@ -468,6 +470,10 @@ def run(ctx):
     ctx.assume("float64 brute-force minimum image over +-R images around the rounded displacement is the true minimum; R per "
                "cell shape is the smallest radius reproducing R=4 on a 17^3 grid of the fractional residual cube "
                "(measured: %s)" % sorted(_RC.items()))
+    skew = {}
+    for c in menu:                    # which off-diagonal entries of the stored box are non-zero: (b_x, c_x, c_y)
+        v = _stored_vectors(c, 1.0)
+        skew.setdefault("".join("1" if x != 0 else "0" for x in (v[1, 0], v[2, 0], v[2, 1])), []).append(c["name"])
     cov = {
         "evaluations": tot["evals"],
         "distinct_nontrivial": len(nontrivial),
@@ -490,6 +496,8 @@ def run(ctx):
         "pairs_inside_straddling_boundary": tot["straddling_in"],
         "pairs_excluded_within_margin": tot["excluded"],
         "margin": MARGIN,
+        "box_skew_patterns_bx_cx_cy": skew,
+        "single_skew_patterns_covered": sorted(k for k in skew if k.count("1") == 1),
         "max_err_over_tol": err,
         "max_abs_err_compute_distances": abserr,
         "tolerance": "%d*eps32*(max|coordinate| + sum|cell vector components|)" % C_TOL,
